@@ -74,7 +74,8 @@ def op_strategy(draw):
         deco = draw(st.sampled_from([None, None, 'impl', 'impl', 'only']))
         return ['newclass', draw(st.lists(IDX, max_size=3)),
                 deco, draw(args(nested=(deco != 'only'), allow_c=True,
-                                lo=1)) if deco else [], chk]
+                                lo=1)) if deco else [],
+                {'slots': draw(st.integers(0, 3)) == 0}, chk]
     if k == 'newinst':
         return ['newinst', draw(IDX), chk]
     if k == 'classImplements':
@@ -111,7 +112,9 @@ def case_strategy(draw):
         deco = draw(st.sampled_from([None, 'impl', 'impl', 'only']))
         ops.append(['newclass', draw(st.lists(IDX, max_size=2)), deco,
                     draw(args(nested=(deco != 'only'), allow_c=True, lo=1))
-                    if deco else [], draw(st.booleans())])
+                    if deco else [],
+                    {'slots': draw(st.integers(0, 3)) == 0},
+                    draw(st.booleans())])
     for _ in range(draw(st.integers(1, 3))):
         ops.append(['newinst', draw(IDX), draw(st.booleans())])
     ops += draw(st.lists(op_strategy(), min_size=3, max_size=36))
@@ -352,7 +355,20 @@ def run_case(case, cfg, out):
         for k, ob in enumerate(rinsts):
             if ob is None:
                 continue
-            p = ob.__dict__.get('__provides__')
+            if hasattr(ob, '__dict__'):
+                p = ob.__dict__.get('__provides__')
+            else:
+                # slotted instance: the slot descriptor of its own class
+                # (an unset slot raises AttributeError)
+                p = None
+                for c in type(ob).__mro__:
+                    d = c.__dict__.get('__provides__')
+                    if d is not None and '__slots__' in c.__dict__:
+                        try:
+                            p = d.__get__(ob, type(ob))
+                        except AttributeError:
+                            p = None
+                        break
             if p is not None:
                 if id(p) in seen:
                     nt['c'] = True
@@ -384,8 +400,14 @@ def run_case(case, cfg, out):
                     b = b % len(rclasses)
                     if b not in bidx:
                         bidx.append(b)
+            # some classes have no instance __dict__, only a slot for
+            # the instance declaration
+            body = {}
+            if len(op) > 5 and op[4].get('slots'):
+                body = {'__slots__': ('__provides__',)}
+                out.tag('slotted_class')
             cls, kept = make_class('K%d' % len(rclasses),
-                                   [rclasses[b] for b in bidx])
+                                   [rclasses[b] for b in bidx], body)
             if kept != len(bidx):
                 out.adjusted += 1
             bidx = bidx[:kept]
@@ -442,6 +464,13 @@ def run_case(case, cfg, out):
                     continue
                 t = op[2] % len(rclasses)
                 target = rclasses[t]
+                if any('__slots__' in c.__dict__ for c in target.__mro__):
+                    # a declaration on the class object is stored as the
+                    # class attribute __provides__ and would replace the
+                    # slot of the same name that instances of this class
+                    # need for theirs: not a shape anybody can use
+                    out.adjusted += 1
+                    continue
                 rec = M.classes[t]
                 mk, Mk = 'cp_must', 'cp_may'
                 ccls = None
